@@ -64,7 +64,7 @@ def check(fx, rep, tier):
     for b, n, ps, via in sites:
         rep.fn(b["def"])
         w = F.loc(n["span"])
-        kinds, implied = arm_kinds(ps, all_kinds, with_implied=True)
+        kinds, implied = arm_kinds(ps, all_kinds, with_implied=True, fx=fx)
         how = "match arm"
         if kinds is None:
             built = set()
